@@ -19,8 +19,10 @@ import (
 	"errors"
 	"fmt"
 	"io"
+	"math"
 	"reflect"
 	"sort"
+	"strconv"
 	"strings"
 	"sync"
 	"testing"
@@ -44,6 +46,7 @@ func init() {
 const (
 	c11DriverName = "verif-c11-fake"
 	c11SharedDSN  = "user:secret@verif-c11-shared"
+	c11OtherDSN   = "user:secret@verif-c11-other" // a second data source alive in the same process
 )
 
 type c11Fault struct{ site string }
@@ -65,6 +68,9 @@ type c11Fake struct {
 
 	iterFailAfter int // >= 0: row iteration fails after that many rows
 	iterErr       *c11Fault
+
+	beginBadConn int // that many upcoming Begin attempts fail with driver.ErrBadConn (a dead pooled connection)
+	openTx       int // transactions currently open on this server
 }
 
 func newC11Fake() *c11Fake {
@@ -109,18 +115,27 @@ func (f *c11Fake) takeArmed() *c11Fault {
 // the process, so the script cannot travel with the connection).
 var c11Current struct {
 	sync.Mutex
-	f *c11Fake
+	f map[string]*c11Fake // by DSN
 }
 
-func c11SetCurrent(f *c11Fake) {
+func c11SetCurrent(f *c11Fake) { c11SetCurrentDSN(c11SharedDSN, f) }
+
+func c11SetCurrentDSN(dsn string, f *c11Fake) {
 	c11Current.Lock()
-	c11Current.f = f
+	if c11Current.f == nil {
+		c11Current.f = map[string]*c11Fake{}
+	}
+	if f == nil {
+		delete(c11Current.f, dsn)
+	} else {
+		c11Current.f[dsn] = f
+	}
 	c11Current.Unlock()
 }
 
 type c11Driver struct{}
 
-func (c11Driver) Open(string) (driver.Conn, error) { return &c11Conn{}, nil }
+func (c11Driver) Open(dsn string) (driver.Conn, error) { return &c11Conn{dsn: dsn}, nil }
 
 // c11Connector serves sql.OpenDB: one private *sql.DB per case.
 type c11Connector struct{ f *c11Fake }
@@ -134,7 +149,11 @@ func (c c11Connector) Connect(context.Context) (driver.Conn, error) {
 
 func (c c11Connector) Driver() driver.Driver { return c11Driver{} }
 
-type c11Conn struct{ f *c11Fake }
+type c11Conn struct {
+	f   *c11Fake
+	dsn string
+	tx  *c11Tx // the transaction open on this driver connection
+}
 
 func (c *c11Conn) fake() *c11Fake {
 	if c.f != nil {
@@ -142,10 +161,25 @@ func (c *c11Conn) fake() *c11Fake {
 	}
 	c11Current.Lock()
 	defer c11Current.Unlock()
-	if c11Current.f == nil {
-		return newC11Fake()
+	if f := c11Current.f[c.dsn]; f != nil {
+		return f
 	}
-	return c11Current.f
+	return newC11Fake()
+}
+
+// c11Prefix marks events that do not belong to the outermost transaction:
+// "n." for a transaction begun while another one is open (and its statements),
+// "o." for a statement outside any transaction while one is open.
+func (c *c11Conn) prefix(f *c11Fake) string {
+	f.mu.Lock()
+	defer f.mu.Unlock()
+	switch {
+	case c.tx != nil && c.tx.level > 0:
+		return "n."
+	case c.tx == nil && f.openTx > 0:
+		return "o."
+	}
+	return ""
 }
 
 func (c *c11Conn) Prepare(q string) (driver.Stmt, error) { return &c11Stmt{c: c, q: q}, nil }
@@ -156,11 +190,29 @@ func (c *c11Conn) Begin() (driver.Tx, error) {
 
 func (c *c11Conn) BeginTx(context.Context, driver.TxOptions) (driver.Tx, error) {
 	f := c.fake()
-	f.log("begin")
+	f.mu.Lock()
+	level := f.openTx
+	bad := f.beginBadConn > 0
+	if bad {
+		f.beginBadConn--
+	}
+	f.mu.Unlock()
+	pre := ""
+	if level > 0 {
+		pre = "n."
+	}
+	f.log(pre + "begin")
+	if bad {
+		return nil, driver.ErrBadConn
+	}
 	if f.failBegin {
 		return nil, f.beginErr
 	}
-	return &c11Tx{f: f}, nil
+	f.mu.Lock()
+	f.openTx++
+	f.mu.Unlock()
+	c.tx = &c11Tx{f: f, c: c, level: level}
+	return c.tx, nil
 }
 
 func (c *c11Conn) ExecContext(_ context.Context, q string, _ []driver.NamedValue) (driver.Result, error) {
@@ -173,7 +225,7 @@ func (c *c11Conn) QueryContext(_ context.Context, q string, _ []driver.NamedValu
 
 func (c *c11Conn) doExec() (driver.Result, error) {
 	f := c.fake()
-	f.log("exec")
+	f.log(c.prefix(f) + "exec")
 	if e := f.takeArmed(); e != nil {
 		return nil, e
 	}
@@ -182,7 +234,7 @@ func (c *c11Conn) doExec() (driver.Result, error) {
 
 func (c *c11Conn) doQuery() (driver.Rows, error) {
 	f := c.fake()
-	f.log("query")
+	f.log(c.prefix(f) + "query")
 	if e := f.takeArmed(); e != nil {
 		return nil, e
 	}
@@ -199,10 +251,26 @@ func (s *c11Stmt) NumInput() int                              { return -1 }
 func (s *c11Stmt) Exec([]driver.Value) (driver.Result, error) { return s.c.doExec() }
 func (s *c11Stmt) Query([]driver.Value) (driver.Rows, error)  { return s.c.doQuery() }
 
-type c11Tx struct{ f *c11Fake }
+type c11Tx struct {
+	f     *c11Fake
+	c     *c11Conn
+	level int // number of transactions that were open when this one began
+}
+
+func (t *c11Tx) end(ev string) {
+	pre := ""
+	if t.level > 0 {
+		pre = "n."
+	}
+	t.f.log(pre + ev)
+	t.f.mu.Lock()
+	t.f.openTx--
+	t.f.mu.Unlock()
+	t.c.tx = nil
+}
 
 func (t *c11Tx) Commit() error {
-	t.f.log("commit")
+	t.end("commit")
 	if t.f.failCommit {
 		return t.f.commitErr
 	}
@@ -210,7 +278,7 @@ func (t *c11Tx) Commit() error {
 }
 
 func (t *c11Tx) Rollback() error {
-	t.f.log("rollback")
+	t.end("rollback")
 	if t.f.failRollback {
 		return t.f.rollbackErr
 	}
@@ -239,12 +307,14 @@ func (r *c11Rows) Next(dest []driver.Value) error {
 	return nil
 }
 
+var c11LogNames = map[string]string{"": "on", "off": "DisableLog", "stmtoff": "DisableStmtLog", "slow": "SetSlowThreshold(1ns)"}
+
 // VerifC11SetLog puts the package's process-wide logging switches into the
 // state a case asks for, through the public API (DisableLog / DisableStmtLog;
 // "" = both on, the default), and returns the function that restores the
 // previous state (there is no exported way to switch them back on).
 func VerifC11SetLog(mode string) (restore func()) {
-	oldSQL, oldSlow := logSQL.True(), logSlowSQL.True()
+	oldSQL, oldSlow, oldThreshold := logSQL.True(), logSlowSQL.True(), slowThreshold.Load()
 	logSQL.Set(true)
 	logSlowSQL.Set(true)
 	switch mode {
@@ -252,10 +322,13 @@ func VerifC11SetLog(mode string) (restore func()) {
 		DisableLog()
 	case "stmtoff":
 		DisableStmtLog()
+	case "slow": // every statement is a "slow query"
+		SetSlowThreshold(time.Nanosecond)
 	}
 	return func() {
 		logSQL.Set(oldSQL)
 		logSlowSQL.Set(oldSlow)
+		slowThreshold.Set(oldThreshold)
 	}
 }
 
@@ -268,6 +341,47 @@ type C11Stmt struct {
 	K string `json:"k"`           // exec | query | prep (prepare + exec on the prepared statement)
 	F bool   `json:"f,omitempty"` // the driver fails this statement
 	R string `json:"r,omitempty"` // body's reaction when this statement returns an error (driver fault or done context): ret | ign ("" = ign) | panic
+	A string `json:"a,omitempty"` // exec only - shape of query text and arguments: "" | none | many | dollar | pct | strs | mismatch | odd | tnil (see c11ExecShape)
+}
+
+// Statement kinds beyond exec | query | prep (re-entrant use of the enclosing connection from inside the body):
+//   outer: an Exec on the enclosing connection itself, i.e. outside the transaction
+//   nnil:  a nested Transact on the enclosing connection whose body runs one Exec and returns nil
+//   nerr:  the same, the nested body returns an error
+// A nested call is a "statement" of the outer body: its result is what the reaction R applies to.
+
+// c11ExecShape returns query text and arguments of an Exec statement.
+// Shapes after "strs" can make the statement fail (or, tnil, panic in the
+// statement logger) before it reaches the driver; the oracle observes that.
+func c11ExecShape(a string, i int) (string, []any) {
+	switch a {
+	case "none":
+		return "update t set a = a + 1", nil
+	case "many":
+		return "insert into t values (?, ?, ?, ?, ?, ?)", []any{i, "it's", nil, []byte{0, 1, 0xff}, 2.5, true}
+	case "dollar":
+		return "update t set a = $1 where id = $2", []any{i, int64(1) << 40}
+	case "pct":
+		return "update t set a = 1 where b like '%s %d %!v 100%' and c = '?' and d = \"$1\"", nil
+	case "strs":
+		return "update t set a = ?, b = ?, c = ? where id = ?", []any{"%s\x00'\"\\", "\xff\xfe invalid utf-8 名称", strings.Repeat("x", 100000), i}
+	case "mismatch":
+		return "update t set a = ? where id = ?", []any{i}
+	case "odd":
+		return "update t set a = ? where id = 1", []any{map[string]int{"k": i}}
+	case "tnil":
+		var tp *time.Time
+		return "update t set at = ? where id = 1", []any{tp}
+	}
+	return "update t set a = ? where id = ?", []any{i, 7}
+}
+
+func c11ShapeSafe(a string) bool {
+	switch a {
+	case "mismatch", "odd", "tnil":
+		return false
+	}
+	return true
 }
 
 // C11TxCase is one transaction: entry point, context, body, driver fault script.
@@ -276,10 +390,10 @@ type C11TxCase struct {
 	Cx        string    `json:"cx,omitempty"` // context given to a ...Ctx entry point: "" live | pre (cancelled before the call) | dead (deadline already expired) | b<j> (cancelled by the body right before statement j; j = len(s): after the last one)
 	Stmts     []C11Stmt `json:"s,omitempty"`  // statements run by the body, in order
 	Out       string    `json:"o"`            // outcome of the body after its statements: nil | err | panic
-	PanicV    string    `json:"pv,omitempty"` // err | str | rt (runtime error)
+	PanicV    string    `json:"pv,omitempty"` // err | str | rt (runtime error) | int
 	BE        string    `json:"be,omitempty"` // the error value the body returns when o = err: "" errors.New | txdone | norows | conndone | badconn | canceled | deadline | eof | custom (own error type)
 	BW        bool      `json:"bw,omitempty"` // ... wrapped with fmt.Errorf("%w")
-	FBegin    string    `json:"fb,omitempty"` // "" | connect | begin
+	FBegin    string    `json:"fb,omitempty"` // "" | connect | begin | badconn (every Begin attempt hits a dead connection: driver.ErrBadConn) | badconn1 (only the first attempt does; database/sql retries on another connection)
 	Log       string    `json:"lg,omitempty"` // package logging switches: "" both on | off (sqlx.DisableLog) | stmtoff (sqlx.DisableStmtLog)
 	FCommit   bool      `json:"fc,omitempty"`
 	FRollback bool      `json:"fr,omitempty"`
@@ -288,11 +402,16 @@ type C11TxCase struct {
 // C11BodyErrKinds are the error values a transaction body returns in the
 // cases: an opaque errors.New value, the database/sql, driver and context
 // sentinels a real body can propagate, io.EOF, and an error type of its own.
-var C11BodyErrKinds = []string{"", "txdone", "norows", "conndone", "badconn", "canceled", "deadline", "eof", "custom"}
+var C11BodyErrKinds = []string{"", "txdone", "norows", "conndone", "badconn", "canceled", "deadline", "eof", "custom", "typednil"}
 
 type c11CustomErr struct{ code int }
 
-func (e *c11CustomErr) Error() string { return fmt.Sprintf("c11 custom body error %d", e.code) }
+func (e *c11CustomErr) Error() string {
+	if e == nil {
+		return "c11 custom body error (nil receiver)"
+	}
+	return fmt.Sprintf("c11 custom body error %d", e.code)
+}
 
 // c11BodyError builds the error value of kind k (wrapped with %w when w).
 func c11BodyError(k string, w bool) error {
@@ -314,6 +433,9 @@ func c11BodyError(k string, w bool) error {
 		e = io.EOF
 	case "custom":
 		e = &c11CustomErr{code: 7}
+	case "typednil":
+		var p *c11CustomErr
+		e = p // a non-nil error value holding a nil pointer
 	default:
 		e = errors.New("c11 body error")
 	}
@@ -324,11 +446,11 @@ func c11BodyError(k string, w bool) error {
 }
 
 // C11TxEntries are the entry points of the in-package unit.
-var C11TxEntries = []string{"transact", "transactctx", "transactctx", "transactctx", "onconn", "newconn"}
+var C11TxEntries = []string{"transact", "transactctx", "transactctx", "transactctx", "onconn", "newconn", "newconn2"}
 
 // c11CtxEntry: the entry point takes the caller's context.
 func c11CtxEntry(e string) bool {
-	return e == "transactctx" || e == "onconn" || e == "newconn" || e == "cachedctx"
+	return e == "transactctx" || e == "onconn" || e == "newconn" || e == "newconn2" || e == "cachedctx"
 }
 
 // VerifC11GenTx draws a transaction case for one of the given entry points.
@@ -347,9 +469,16 @@ func VerifC11GenTx(entries []string) func(rt *rapid.T) C11TxCase {
 			}
 		}
 		for i := 0; i < n; i++ {
-			s := C11Stmt{K: rapid.SampledFrom([]string{"exec", "exec", "query", "prep"}).Draw(rt, "kind")}
-			if rapid.IntRange(0, 3).Draw(rt, "stmtfault") == 0 {
+			s := C11Stmt{K: rapid.SampledFrom([]string{"exec", "exec", "exec", "query", "query", "prep", "prep", "outer", "nnil", "nerr"}).Draw(rt, "kind")}
+			nested := s.K == "nnil" || s.K == "nerr"
+			if !nested && rapid.IntRange(0, 3).Draw(rt, "stmtfault") == 0 {
 				s.F = true
+			}
+			if s.K == "exec" && rapid.IntRange(0, 2).Draw(rt, "shaped") == 1 {
+				s.A = rapid.SampledFrom([]string{"none", "many", "dollar", "pct", "strs", "mismatch", "odd", "tnil"}).Draw(rt, "shape")
+			}
+			if nested || !c11ShapeSafe(s.A) {
+				s.R = rapid.SampledFrom([]string{"ret", "ret", "ign", "panic"}).Draw(rt, "reaction")
 			}
 			if s.F || c.Cx != "" {
 				s.R = rapid.SampledFrom([]string{"ret", "ret", "ign", "panic"}).Draw(rt, "reaction")
@@ -358,7 +487,7 @@ func VerifC11GenTx(entries []string) func(rt *rapid.T) C11TxCase {
 		}
 		c.Out = rapid.SampledFrom([]string{"nil", "nil", "err", "panic"}).Draw(rt, "out")
 		if c.Out == "panic" {
-			c.PanicV = rapid.SampledFrom([]string{"err", "str", "rt"}).Draw(rt, "panicv")
+			c.PanicV = rapid.SampledFrom([]string{"err", "str", "rt", "int"}).Draw(rt, "panicv")
 		}
 		if c.Out == "err" && rapid.IntRange(0, 3).Draw(rt, "plainbodyerr") != 0 {
 			c.BE = rapid.SampledFrom(C11BodyErrKinds).Draw(rt, "bodyerrkind")
@@ -369,13 +498,17 @@ func VerifC11GenTx(entries []string) func(rt *rapid.T) C11TxCase {
 			c.FBegin = "begin"
 		case 13:
 			c.FBegin = "connect"
-			if c.Entry == "newconn" { // shared pooled *sql.DB: a connection may already be open
+			if c.Entry == "newconn" || c.Entry == "newconn2" { // shared pooled *sql.DB: a connection may already be open
 				c.FBegin = "begin"
 			}
+		case 3:
+			c.FBegin = "badconn"
+		case 16, 17:
+			c.FBegin = "badconn1"
 		}
 		c.FCommit = rapid.IntRange(0, 3).Draw(rt, "fcommit") == 0
 		c.FRollback = rapid.IntRange(0, 3).Draw(rt, "frollback") == 0
-		c.Log = rapid.SampledFrom([]string{"", "", "off", "off", "stmtoff"}).Draw(rt, "log")
+		c.Log = rapid.SampledFrom([]string{"", "", "off", "off", "stmtoff", "slow"}).Draw(rt, "log")
 		return c
 	}
 }
@@ -383,20 +516,31 @@ func VerifC11GenTx(entries []string) func(rt *rapid.T) C11TxCase {
 // C11Runner runs fn in a transaction on db through one entry point of the code
 // under test, handing ctx to the ...Ctx entry points, and returns what the
 // caller of that entry point gets.
-type C11Runner func(entry string, ctx context.Context, db *sql.DB, fn func(context.Context, Session) error) error
+//
+// bind is called with the connection the transaction runs on (for transactOnConn:
+// another connection on the same *sql.DB) before fn can run: the body uses it for
+// re-entrant calls.
+type C11Runner func(entry string, ctx context.Context, db *sql.DB, fn func(context.Context, Session) error, bind func(C11HistConn)) error
 
 type c11CtxKey struct{}
 
-func c11RunTx(entry string, ctx context.Context, db *sql.DB, fn func(context.Context, Session) error) error {
+func c11RunTx(entry string, ctx context.Context, db *sql.DB, fn func(context.Context, Session) error, bind func(C11HistConn)) error {
 	switch entry {
 	case "transact":
-		return NewConnFromDB(db).Transact(func(s Session) error { return fn(context.Background(), s) })
+		conn := NewConnFromDB(db)
+		bind(conn)
+		return conn.Transact(func(s Session) error { return fn(context.Background(), s) })
 	case "transactctx":
-		return NewConnFromDB(db).TransactCtx(ctx, fn)
+		conn := NewConnFromDB(db)
+		bind(conn)
+		return conn.TransactCtx(ctx, fn)
 	case "onconn":
+		bind(NewConnFromDB(db))
 		return transactOnConn(ctx, db, begin, fn)
-	case "newconn":
-		return NewConn(c11DriverName, c11SharedDSN).TransactCtx(ctx, fn)
+	case "newconn", "newconn2":
+		conn := NewConn(c11DriverName, c11SharedDSN)
+		bind(conn)
+		return conn.TransactCtx(ctx, fn)
 	}
 	panic("c11: unknown entry " + entry)
 }
@@ -448,10 +592,31 @@ func VerifC11InterpTx(c C11TxCase, run C11Runner) (v kit.Verdict) {
 	f.cols = []string{"a"}
 	f.rows = [][]driver.Value{{int64(41)}}
 
+	switch c.FBegin {
+	case "badconn":
+		f.beginBadConn = 1 << 20
+	case "badconn1":
+		f.beginBadConn = 1
+	}
+	beginFails := c.FBegin == "begin" || c.FBegin == "connect" || c.FBegin == "badconn"
 	var db *sql.DB
-	if c.Entry == "newconn" {
+	var otherFake *c11Fake
+	otherWrong := ""
+	if c.Entry == "newconn" || c.Entry == "newconn2" {
 		c11SetCurrent(f)
 		defer c11SetCurrent(nil)
+		if c.Entry == "newconn2" {
+			// a second data source is alive (and used) in the same process
+			otherFake = newC11Fake()
+			c11SetCurrentDSN(c11OtherDSN, otherFake)
+			defer c11SetCurrentDSN(c11OtherDSN, nil)
+			if _, e := NewConn(c11DriverName, c11OtherDSN).Exec("insert into other_db_audit values (1)"); e != nil {
+				otherWrong = fmt.Sprintf("Exec on the connection of the other data source failed: %v", e)
+			}
+			if ev := f.snapshot(); len(ev) != 0 {
+				otherWrong = fmt.Sprintf("an Exec on the connection of data source %q reached the server of data source %q: %v", c11OtherDSN, c11SharedDSN, ev)
+			}
+		}
 	} else {
 		db = sql.OpenDB(c11Connector{f})
 		defer db.Close()
@@ -488,13 +653,21 @@ func VerifC11InterpTx(c C11TxCase, run C11Runner) (v kit.Verdict) {
 		stmtErrs = append(stmtErrs, &c11Fault{fmt.Sprintf("stmt %d", i)})
 	}
 	retIdx := -1
+	modelExact := true // every statement behaves as the driver script alone says
 	for i, s := range c.Stmts {
-		if s.F && s.R == "ret" {
-			retIdx = i
+		if !c11ShapeSafe(s.A) {
+			modelExact = false
+		}
+		nested := s.K == "nnil" || s.K == "nerr"
+		fails := (s.F && !nested) || s.K == "nerr" || (s.K == "nnil" && c.FCommit)
+		if fails && s.R == "ret" {
+			if s.F && !nested {
+				retIdx = i
+			}
 			prescribed = "err"
 			break
 		}
-		if s.F && s.R == "panic" {
+		if fails && s.R == "panic" {
 			prescribed = "panic"
 			break
 		}
@@ -505,32 +678,85 @@ func VerifC11InterpTx(c C11TxCase, run C11Runner) (v kit.Verdict) {
 	runs := 0
 	var captured Session
 	queryWrong := ""
+	nestedWrong := ""
 	lostFault := ""
 	outcome := ""         // observed: nil | err | panic
 	var returned error    // the error the body returned
-	var executed []string // driver-level kind of every statement the body started
+	var executed []string // what reached the driver during the body's statements, in order
 	sawStmtFault, panicAtStmt, ctxFailedStmt := false, false, false
+	var self C11HistConn // the enclosing connection, for re-entrant calls
+	innerErr := errors.New("c11 nested body error")
 	fn := func(ctx context.Context, s Session) error {
 		runs++
 		captured = s
+		defer func() {
+			// a panic raised by the code under test inside one of the body's
+			// statements (not by the harness body itself) is a panicking body too
+			if p := recover(); p != nil {
+				if outcome != "panic" {
+					outcome, panicAtStmt = "panic", true
+				}
+				panic(p)
+			}
+		}()
 		for i, st := range c.Stmts {
 			if i == cancelAt {
 				cancel()
 			}
 			var err error
-			if st.F {
+			nested := st.K == "nnil" || st.K == "nerr"
+			if st.F && !nested {
 				f.arm(stmtErrs[i])
 			}
+			before := len(f.snapshot())
+			var wantDelta []string // what the driver must have seen if the call returned nil
 			switch st.K {
 			case "exec":
-				executed = append(executed, "exec")
-				if i%2 == 0 {
+				wantDelta = []string{"exec"}
+				q, args := c11ExecShape(st.A, i)
+				switch {
+				case st.A != "" && i%2 == 0:
+					_, err = s.ExecCtx(ctx, q, args...)
+				case st.A != "":
+					_, err = s.Exec(q, args...)
+				case i%2 == 0:
 					_, err = s.ExecCtx(ctx, "update t set a = ? where id = ?", i, 7)
-				} else {
+				default:
 					_, err = s.Exec("update t set a = a + 1")
 				}
+			case "outer":
+				wantDelta = []string{"o.exec"}
+				_, err = self.Exec("insert into audit values (?)", i)
+			case "nnil", "nerr":
+				wantDelta = []string{"n.begin", "n.exec", "n.commit"}
+				if st.K == "nerr" {
+					wantDelta[2] = "n.rollback"
+				}
+				err = self.Transact(func(in Session) error {
+					if _, e := in.Exec("update u set b = b + 1"); e != nil {
+						return e
+					}
+					if st.K == "nerr" {
+						return innerErr
+					}
+					return nil
+				})
+				got := f.snapshot()[before:]
+				switch {
+				case nestedWrong != "":
+				case !c11SameEvents(got, wantDelta):
+					nestedWrong = fmt.Sprintf("statement %d: nested Transact (%s) on the enclosing connection: the driver saw %v, want %v", i, st.K, got, wantDelta)
+				case st.K == "nnil" && !c.FCommit && err != nil:
+					nestedWrong = fmt.Sprintf("statement %d: nested Transact whose body returned nil and whose Commit succeeded returned %v", i, err)
+				case st.K == "nnil" && c.FCommit && !errors.Is(err, f.commitErr):
+					nestedWrong = fmt.Sprintf("statement %d: nested Transact whose Commit failed returned %v", i, err)
+				case st.K == "nerr" && err == nil:
+					nestedWrong = fmt.Sprintf("statement %d: nested Transact whose body returned an error returned nil", i)
+				case st.K == "nerr" && !c.FRollback && !errors.Is(err, innerErr):
+					nestedWrong = fmt.Sprintf("statement %d: nested Transact returned %v, its body returned %v", i, err, innerErr)
+				}
 			case "query":
-				executed = append(executed, "query")
+				wantDelta = []string{"query"}
 				var dst struct {
 					A int64 `db:"a"`
 				}
@@ -543,16 +769,30 @@ func VerifC11InterpTx(c C11TxCase, run C11Runner) (v kit.Verdict) {
 					queryWrong = fmt.Sprintf("statement %d: QueryRow inside the transaction read %d, the driver served 41", i, dst.A)
 				}
 			case "prep":
-				executed = append(executed, "exec")
+				wantDelta = []string{"exec"}
 				var ps StmtSession
-				ps, err = s.PrepareCtx(ctx, "update t set a = ? where id = 1")
+				if i%2 == 0 {
+					ps, err = s.PrepareCtx(ctx, "update t set a = ? where id = 1")
+				} else {
+					ps, err = s.Prepare("update t set a = ? where id = 1")
+				}
 				if err == nil {
-					_, err = ps.ExecCtx(ctx, i)
+					if i%2 == 0 {
+						_, err = ps.ExecCtx(ctx, i)
+					} else {
+						_, err = ps.Exec(i)
+					}
 					_ = ps.Close()
 				}
 			}
+			delta := f.snapshot()[before:]
+			executed = append(executed, delta...)
+			if err == nil && !c11SameEvents(delta, wantDelta) && lostFault == "" {
+				// a nil error claims the statement was executed
+				lostFault = fmt.Sprintf("statement %d (%s %s): the call returned a nil error but the driver saw %v, want %v", i, st.K, st.A, delta, wantDelta)
+			}
 			// a statement that never reached the driver must not leave its fault behind
-			if left := f.takeArmed(); st.F && left == nil && lostFault == "" {
+			if left := f.takeArmed(); st.F && !nested && left == nil && lostFault == "" {
 				// the driver failed this statement: the session call must say so
 				if err == nil {
 					lostFault = fmt.Sprintf("statement %d (%s): the driver failed it with %q but the session call returned a nil error", i, st.K, stmtErrs[i])
@@ -592,6 +832,8 @@ func VerifC11InterpTx(c C11TxCase, run C11Runner) (v kit.Verdict) {
 			case "rt":
 				var m map[string]int
 				m["x"] = 1 // runtime error
+			case "int":
+				panic(42)
 			default:
 				panic(bodyErr)
 			}
@@ -610,12 +852,21 @@ func VerifC11InterpTx(c C11TxCase, run C11Runner) (v kit.Verdict) {
 				panicked, panicVal = true, p
 			}
 		}()
-		res = run(c.Entry, userCtx, db, fn)
+		res = run(c.Entry, userCtx, db, fn, func(hc C11HistConn) { self = hc })
 	}()
+	f.takeArmed()
 	events := f.snapshot()
+	if c.FBegin == "badconn1" && len(events) >= 2 && events[0] == "begin" && events[1] == "begin" {
+		events = events[1:] // the attempt on the dead connection, retried by database/sql
+	}
+	if otherFake != nil && otherWrong == "" {
+		if ev := otherFake.snapshot(); !c11SameEvents(ev, []string{"exec"}) {
+			otherWrong = fmt.Sprintf("the server of the other data source %q saw %v, want only its own [exec]", c11OtherDSN, ev)
+		}
+	}
 
 	// ---- classes / non-trivial rule
-	classes := []string{"entry:" + c.Entry, "log:" + map[string]string{"": "on", "off": "DisableLog", "stmtoff": "DisableStmtLog"}[c.Log]}
+	classes := []string{"entry:" + c.Entry, "log:" + c11LogNames[c.Log]}
 	ctxClass := "ctx:live"
 	switch {
 	case cx == "pre", cx == "dead":
@@ -624,6 +875,19 @@ func VerifC11InterpTx(c C11TxCase, run C11Runner) (v kit.Verdict) {
 		ctxClass = "ctx:cancelled-by-body"
 	}
 	classes = append(classes, ctxClass)
+	for _, st := range c.Stmts {
+		switch {
+		case st.K == "outer":
+			classes = append(classes, "reentrant:exec-on-enclosing-conn")
+		case st.K == "nnil" || st.K == "nerr":
+			classes = append(classes, "reentrant:nested-transact")
+		case st.A != "":
+			classes = append(classes, "args:"+st.A)
+		}
+	}
+	if c.Out == "panic" && c.PanicV == "int" {
+		classes = append(classes, "panic-value:int")
+	}
 	commits, rollbacks, begins := 0, 0, 0
 	for _, e := range events {
 		switch e {
@@ -635,7 +899,10 @@ func VerifC11InterpTx(c C11TxCase, run C11Runner) (v kit.Verdict) {
 			begins++
 		}
 	}
-	if c.FBegin != "" {
+	if c.FBegin == "badconn1" {
+		classes = append(classes, "begin:first-attempt-on-dead-connection")
+	}
+	if beginFails {
 		classes = append(classes, "begin-fault:"+c.FBegin)
 		v.NonTrivial = true
 	} else if runs > 0 {
@@ -707,7 +974,10 @@ func VerifC11InterpTx(c C11TxCase, run C11Runner) (v kit.Verdict) {
 	}
 
 	// ---- oracle
-	if c.FBegin != "" {
+	if otherWrong != "" {
+		return v.Failf("%s", otherWrong)
+	}
+	if beginFails {
 		switch {
 		case panicked:
 			return v.Failf("Begin failed: the caller got a panic instead of an error (%s)", describe())
@@ -746,10 +1016,13 @@ func VerifC11InterpTx(c C11TxCase, run C11Runner) (v kit.Verdict) {
 	if queryWrong != "" {
 		return v.Failf("%s", queryWrong)
 	}
+	if nestedWrong != "" {
+		return v.Failf("%s (%s)", nestedWrong, describe())
+	}
 	if lostFault != "" {
 		return v.Failf("%s; the body then ended with outcome %q (%s)", lostFault, outcome, describe())
 	}
-	if live {
+	if live && modelExact {
 		if outcome != prescribed {
 			return v.Failf("live context: the body ended with outcome %q, the case prescribes %q: a statement did not behave as the driver script says (%s)", outcome, prescribed, describe())
 		}
@@ -904,7 +1177,7 @@ func c11EnumerateTx(maxStmts, maxCtxStmts int) func(yield func(C11TxCase) bool) 
 				for _, e := range entries {
 					for _, o := range outs {
 						berrs := []berr{{"", false}}
-						if o.o == "err" && cx == "" && len(stmts) <= 1 {
+						if o.o == "err" && cx == "" && len(stmts) <= 1 && (len(stmts) == 0 || (stmts[0].A == "" && len(stmts[0].K) >= 4 && stmts[0].K != "outer" && stmts[0].K != "nnil" && stmts[0].K != "nerr")) {
 							berrs = nil
 							for _, k := range C11BodyErrKinds {
 								berrs = append(berrs, berr{k, false}, berr{k, true})
@@ -912,7 +1185,7 @@ func c11EnumerateTx(maxStmts, maxCtxStmts int) func(yield func(C11TxCase) bool) 
 						}
 						for _, be := range berrs {
 							for _, fb := range []string{"", "begin", "connect"} {
-								if fb == "connect" && e == "newconn" {
+								if fb == "connect" && (e == "newconn" || e == "newconn2") {
 									continue
 								}
 								for _, fc := range []bool{false, true} {
@@ -950,6 +1223,37 @@ func c11EnumerateTx(maxStmts, maxCtxStmts int) func(yield func(C11TxCase) bool) 
 			return emit(stmts, []string{"transact", "transactctx", "onconn", "newconn"}, "")
 		}) {
 			return
+		}
+		// one statement of the re-entrant kinds / of every argument shape, a dead
+		// connection at Begin, a second data source: live context
+		var extra []C11Stmt
+		for _, r := range []string{"ret", "ign", "panic"} {
+			extra = append(extra, C11Stmt{K: "nnil", R: r}, C11Stmt{K: "nerr", R: r}, C11Stmt{K: "outer", F: true, R: r})
+			for _, a := range []string{"mismatch", "odd", "tnil"} {
+				extra = append(extra, C11Stmt{K: "exec", A: a, R: r})
+			}
+		}
+		extra = append(extra, C11Stmt{K: "outer"})
+		for _, a := range []string{"none", "many", "dollar", "pct", "strs"} {
+			extra = append(extra, C11Stmt{K: "exec", A: a}, C11Stmt{K: "exec", A: a, F: true, R: "ret"})
+		}
+		for _, st := range extra {
+			if !emit([]C11Stmt{st}, []string{"transact", "transactctx", "onconn", "newconn", "newconn2"}, "") {
+				return
+			}
+		}
+		for _, fb := range []string{"badconn", "badconn1"} {
+			for _, e := range []string{"transact", "transactctx", "onconn", "newconn", "newconn2"} {
+				for _, o := range outs {
+					for _, stmts := range [][]C11Stmt{nil, {{K: "exec"}}, {{K: "exec", F: true, R: "ret"}}} {
+						for _, fc := range []bool{false, true} {
+							if !yield(C11TxCase{Entry: e, Stmts: stmts, Out: o.o, PanicV: o.pv, FBegin: fb, FCommit: fc, FRollback: fc}) {
+								return
+							}
+						}
+					}
+				}
+			}
 		}
 		rec(nil, maxCtxStmts, stmtOptsCtx, func(stmts []C11Stmt) bool {
 			states := []string{"pre", "dead"}
@@ -995,6 +1299,14 @@ type C11Col struct {
 	U int    `json:"u"`           // makes values distinct between columns
 	Z []int  `json:"z,omitempty"` // rows in which the value is NULL
 	B bool   `json:"b,omitempty"` // strings delivered as []byte (as the MySQL driver does)
+	M string `json:"m,omitempty"` // magnitude of the values: "" ordinary | zero | max | min | p31 | p53 | long (str/byt of L bytes)
+	L int    `json:"l,omitempty"` // length for M = long
+}
+
+// c11LongString builds a string of n bytes from a small description (the case stores only n).
+func c11LongString(n, row, u int) string {
+	unit := fmt.Sprintf("<%d.%d>", row, u)
+	return (strings.Repeat(unit, n/len(unit)+1))[:n]
 }
 
 // C11RowsCase is one query: session kind, call form, destination, result set.
@@ -1071,7 +1383,7 @@ func c11BuildType(fs []C11Field, depth int) reflect.Type {
 		}
 		fld := reflect.StructField{Name: fmt.Sprintf("F%d_%d", depth, i), Type: c11LeafTypes[f.T]}
 		if f.G != "" {
-			fld.Tag = reflect.StructTag(`db:"` + f.G + `"`)
+			fld.Tag = reflect.StructTag("db:" + strconv.Quote(f.G))
 		}
 		sf = append(sf, fld)
 	}
@@ -1176,21 +1488,58 @@ func c11DriverValue(col C11Col, row int) driver.Value {
 	if c11IsNull(col, row) {
 		return nil
 	}
-	n := int64(1000*(row+1) + col.U + 1)
+	n := int64(100000*(row+1) + col.U + 1)
 	switch col.T {
 	case "i64":
+		switch col.M {
+		case "zero":
+			return int64(0)
+		case "max":
+			return int64(math.MaxInt64) - int64(row)
+		case "min":
+			return int64(math.MinInt64) + int64(row)
+		case "p31":
+			return int64(1)<<31 + int64(row) - 1
+		case "p53":
+			return int64(1)<<53 + 1 + int64(row)
+		}
 		return n
 	case "str":
 		s := fmt.Sprintf("r%du%d", row, col.U)
+		switch col.M {
+		case "zero":
+			s = ""
+		case "long":
+			s = c11LongString(col.L, row, col.U)
+		}
 		if col.B {
 			return []byte(s)
 		}
 		return s
 	case "f64":
+		switch col.M {
+		case "zero":
+			return float64(0)
+		case "max":
+			return math.MaxFloat64
+		case "min":
+			return -math.SmallestNonzeroFloat64
+		case "p53":
+			return float64(int64(1)<<53) + 2*float64(row+1)
+		}
 		return float64(n) + 0.25
 	case "bool":
+		if col.M == "zero" {
+			return false
+		}
 		return (row+col.U)%2 == 0
 	case "byt":
+		switch col.M {
+		case "zero":
+			return []byte{}
+		case "long":
+			return []byte(c11LongString(col.L, row, col.U))
+		}
 		return []byte(fmt.Sprintf("b%du%d", row, col.U))
 	}
 	panic("c11: column kind " + col.T)
@@ -1204,22 +1553,29 @@ func c11Want(t string, col C11Col, row int) any {
 		return nil // only reached for nullable leaves
 	}
 	var base any
+	nonzero := true
 	switch x := dv.(type) {
 	case int64:
-		base = x
+		base, nonzero = x, x != 0
 	case string:
-		base = x
+		base, nonzero = x, x != ""
 	case []byte:
-		base = string(x)
+		base, nonzero = string(x), len(x) != 0
 	case float64:
-		base = x
+		base, nonzero = x, x != 0
 	case bool:
-		if !x {
-			return c11ValidWrap(t, nil, false)
-		}
-		base = true
+		base, nonzero = x, x
 	}
-	return c11ValidWrap(t, base, true)
+	return c11ValidWrap(t, base, nonzero)
+}
+
+// c11Short prints a value for a failure message, cutting very long ones.
+func c11Short(x any) string {
+	s := fmt.Sprintf("%v", x)
+	if len(s) > 300 {
+		return fmt.Sprintf("%s...(%d bytes)", s[:120], len(s))
+	}
+	return s
 }
 
 func c11ValidWrap(t string, base any, nonzero bool) any {
@@ -1245,6 +1601,12 @@ func VerifC11GenRows(sessions []string) func(rt *rapid.T) C11RowsCase {
 			Partial: rapid.IntRange(0, 9).Draw(rt, "partial") < 4,
 			NRows:   rapid.SampledFrom([]int{0, 1, 1, 1, 1, 2, 2, 3}).Draw(rt, "nrows"),
 		}
+		switch mr := rapid.IntRange(0, 999).Draw(rt, "manyrows"); {
+		case mr >= 400 && mr < 412:
+			c.NRows = rapid.SampledFrom([]int{255, 256, 1000, 1024, 1025}).Draw(rt, "nrows-big")
+		case mr == 707:
+			c.NRows = 10000
+		}
 		c.ElemPtr = !c.Single && rapid.Bool().Draw(rt, "elemptr")
 		c.Cd = rapid.IntRange(0, 19).Draw(rt, "ctxdone") == 11 && c.Ctx
 		c.W = rapid.IntRange(0, 3).Draw(rt, "warmup") == 0
@@ -1267,6 +1629,9 @@ func VerifC11GenRows(sessions []string) func(rt *rapid.T) C11RowsCase {
 		}
 
 		n := rapid.IntRange(1, 5).Draw(rt, "nleaves")
+		if rapid.IntRange(0, 59).Draw(rt, "manyfields") == 17 {
+			n = rapid.SampledFrom([]int{17, 33, 64}).Draw(rt, "nleaves-big")
+		}
 		leaves := make([]C11Field, n)
 		for i := range leaves {
 			leaves[i].T = rapid.SampledFrom(leafTypes).Draw(rt, "leaftype")
@@ -1337,13 +1702,15 @@ func VerifC11GenRows(sessions []string) func(rt *rapid.T) C11RowsCase {
 		// extra columns
 		extraRoll := rapid.IntRange(0, 19).Draw(rt, "extra")
 		nextra := 0
-		if byName && extraRoll < 8 {
+		if byName && extraRoll >= 17 && rapid.IntRange(0, 3).Draw(rt, "manyextra") == 2 {
+			nextra = rapid.SampledFrom([]int{100, 255, 256, 257}).Draw(rt, "nextra-big")
+		} else if byName && extraRoll < 8 {
 			nextra = 1 + extraRoll%2
 		} else if !byName && extraRoll == 0 {
 			nextra = 1 // outside the claim for positional destinations
 		}
 		for j := 0; j < nextra; j++ {
-			col := C11Col{N: fmt.Sprintf("x%d", j), T: rapid.SampledFrom(colKinds).Draw(rt, "extrakind"), U: 10 + j}
+			col := C11Col{N: fmt.Sprintf("x%d", j), T: rapid.SampledFrom(colKinds).Draw(rt, "extrakind"), U: 1000 + j}
 			if c.NRows > 0 && rapid.Bool().Draw(rt, "extranull") {
 				col.Z = []int{rapid.IntRange(0, c.NRows-1).Draw(rt, "extranullrow")}
 			}
@@ -1368,7 +1735,7 @@ func VerifC11GenRows(sessions []string) func(rt *rapid.T) C11RowsCase {
 		}
 		// NULLs
 		for i := range c.Cols {
-			if c.NRows == 0 || c.Cols[i].U >= 10 {
+			if c.NRows == 0 || c.Cols[i].U >= 1000 {
 				continue
 			}
 			var lt string
@@ -1382,6 +1749,31 @@ func VerifC11GenRows(sessions []string) func(rt *rapid.T) C11RowsCase {
 			roll := rapid.IntRange(0, 39).Draw(rt, "null")
 			if (c11Nullable(lt) && roll < 16) || (!c11Nullable(lt) && roll == 23) {
 				c.Cols[i].Z = []int{rapid.IntRange(0, c.NRows-1).Draw(rt, "nullrow")}
+			}
+		}
+		// magnitudes of the values
+		for i := range c.Cols {
+			if rapid.IntRange(0, 5).Draw(rt, "magnitude") != 2 {
+				continue
+			}
+			switch c.Cols[i].T {
+			case "i64":
+				c.Cols[i].M = rapid.SampledFrom([]string{"zero", "max", "min", "p31", "p53"}).Draw(rt, "imag")
+			case "f64":
+				c.Cols[i].M = rapid.SampledFrom([]string{"zero", "max", "min", "p53"}).Draw(rt, "fmag")
+			case "bool":
+				c.Cols[i].M = "zero"
+			case "str", "byt":
+				c.Cols[i].M = rapid.SampledFrom([]string{"zero", "long", "long", "long"}).Draw(rt, "smag")
+				if c.Cols[i].M == "long" {
+					c.Cols[i].L = rapid.SampledFrom([]int{1, 255, 256, 257, 4095, 4096, 4097, 65535, 65536, 65537}).Draw(rt, "slen")
+					if c.NRows <= 3 && rapid.IntRange(0, 19).Draw(rt, "mib") == 7 {
+						c.Cols[i].L = rapid.SampledFrom([]int{1<<20 - 1, 1 << 20, 1<<20 + 1}).Draw(rt, "slen-mib")
+					}
+					if c.NRows > 300 && c.Cols[i].L > 4097 {
+						c.Cols[i].L = 257
+					}
+				}
 			}
 		}
 		c11StyleNames(rt, &c, n)
@@ -1398,6 +1790,16 @@ var c11NameStyles = map[string]func(i int) string{
 	"pascal": func(i int) string { return fmt.Sprintf("UserName%d", i) },
 	"upper":  func(i int) string { return fmt.Sprintf("ORDER_NO_%d", i) },
 	"digits": func(i int) string { return fmt.Sprintf("col_%d_v2X", i) },
+	// the alphabet a quoted SQL identifier / alias can contain (no comma: it separates tag options)
+	"space":   func(i int) string { return fmt.Sprintf("user id %d", i) },
+	"dot":     func(i int) string { return fmt.Sprintf("t%d.col", i) },
+	"unicode": func(i int) string { return fmt.Sprintf("名称_ü%d", i) },
+	"verbs":   func(i int) string { return fmt.Sprintf("%%s%%d%%!v(%d)", i) },
+	"quotes":  func(i int) string { return fmt.Sprintf("it's \"q\" `b` \\%d", i) },
+	"glob":    func(i int) string { return fmt.Sprintf("c*[%d]?$^", i) },
+	"lead":    func(i int) string { return fmt.Sprintf("_%d_", i) },
+	"nul":     func(i int) string { return fmt.Sprintf("c\x00%d", i) },
+	"long":    func(i int) string { return fmt.Sprintf("%s%d", strings.Repeat("very_long_column_name_", 50), i) },
 }
 
 // c11StyleNames re-spells the generated names c0..c<n-1> (tags and the
@@ -1405,7 +1807,7 @@ var c11NameStyles = map[string]func(i int) string{
 // differ only in case (rowKey / rowkey), each column still carrying the exact
 // spelling of its tag.
 func c11StyleNames(rt *rapid.T, c *C11RowsCase, n int) {
-	styles := []string{"lower", "camel", "pascal", "upper", "digits"}
+	styles := []string{"lower", "camel", "pascal", "upper", "digits", "space", "dot", "unicode", "verbs", "quotes", "glob", "lead", "nul", "long"}
 	mode := rapid.SampledFrom([]string{"lower", "lower", "one", "one", "mixed", "mixed", "casepair"}).Draw(rt, "namemode")
 	names := map[string]string{}
 	one := rapid.SampledFrom(styles[1:]).Draw(rt, "namestyle")
@@ -1589,7 +1991,7 @@ func VerifC11InterpRows(c C11RowsCase, q C11Querier) (v kit.Verdict) {
 		form += "-strict"
 	}
 	classes := map[string]bool{"sess:" + c.Sess: true, "form:" + form: true, fmt.Sprintf("nrows:%d", c.NRows): true,
-		"log:" + map[string]string{"": "on", "off": "DisableLog", "stmtoff": "DisableStmtLog"}[c.Log]: true}
+		"log:" + c11LogNames[c.Log]: true}
 	queryFault := &c11Fault{"query"}
 	if c.QF && !c.Cd {
 		f.arm(queryFault)
@@ -1797,6 +2199,22 @@ func VerifC11InterpRows(c C11RowsCase, q C11Querier) (v kit.Verdict) {
 	if c.Names != "" {
 		classes["names:"+c.Names] = true
 	}
+	for _, col := range c.Cols {
+		if col.M == "long" {
+			classes[fmt.Sprintf("magnitude:long>=%d", map[bool]int{true: 65535, false: 1}[col.L >= 65535])] = true
+		} else if col.M != "" {
+			classes["magnitude:"+col.M] = true
+		}
+	}
+	if c.NRows >= 255 {
+		classes["size:rows>=255"] = true
+	}
+	if len(c.Cols) >= 100 {
+		classes["size:columns>=100"] = true
+	}
+	if len(leaves) >= 17 {
+		classes["size:fields>=17"] = true
+	}
 	if hasEmb {
 		classes["embedded"] = true
 	}
@@ -1992,7 +2410,7 @@ func VerifC11InterpRows(c C11RowsCase, q C11Querier) (v kit.Verdict) {
 				if src[i] >= 0 {
 					from = fmt.Sprintf("source column %d %q", src[i], c.Cols[src[i]].N)
 				}
-				return fmt.Sprintf("leaf %d (type %s, tag %q) holds %v, want %v (%s; columns %v, row %d)", i, l.T, l.G, e[i], want, from, f.cols, r)
+				return fmt.Sprintf("leaf %d (type %s, tag %q) holds %s, want %s (%s; columns %s, row %d)", i, l.T, l.G, c11Short(e[i]), c11Short(want), from, c11Short(f.cols), r)
 			}
 		}
 		return ""
@@ -2084,7 +2502,7 @@ func VerifC11InterpRows(c C11RowsCase, q C11Querier) (v kit.Verdict) {
 }
 
 func TestVerif_C11_rows(t *testing.T) {
-	kit.Run(t, "C11", "rows", kit.Opts{Quick: 30000, Thorough: 1200000}, VerifC11GenRows(C11RowsSessions),
+	kit.Run(t, "C11", "rows", kit.Opts{Quick: 30000, Thorough: 800000}, VerifC11GenRows(C11RowsSessions),
 		func(c C11RowsCase) kit.Verdict { return VerifC11InterpRows(c, c11RunQuery) })
 }
 
@@ -2108,8 +2526,10 @@ type C11HistOp struct {
 // connection's breaker starts shedding) followed by arbitrary calls. Every call
 // of the history, burst included, is judged on its own.
 type C11HistCase struct {
-	Log string      `json:"lg,omitempty"`
-	Ops []C11HistOp `json:"ops"`
+	Log   string      `json:"lg,omitempty"`
+	Churn int         `json:"churn,omitempty"` // that many successful Exec calls on the connection before the history (a long-lived connection)
+	Pend  bool        `json:"pend,omitempty"`  // a transaction begun on the same *sql.DB before the churn stays open across churn and history and is committed at the end
+	Ops   []C11HistOp `json:"ops"`
 }
 
 // C11HistConn is what the history needs from a connection.
@@ -2145,6 +2565,13 @@ func VerifC11GenHist(rt *rapid.T) C11HistCase {
 		}
 		c.Ops = append(c.Ops, op)
 	}
+	switch rapid.IntRange(0, 49).Draw(rt, "churn") {
+	case 3, 13, 23, 33, 43:
+		c.Churn = rapid.SampledFrom([]int{999, 1000, 1001, 1024}).Draw(rt, "churn-n")
+	case 27:
+		c.Churn = rapid.SampledFrom([]int{4096, 5000}).Draw(rt, "churn-big")
+	}
+	c.Pend = rapid.IntRange(0, 3).Draw(rt, "pending") == 1
 	n := rapid.IntRange(1, 12).Draw(rt, "nops")
 	for i := 0; i < n; i++ {
 		op := C11HistOp{K: rapid.SampledFrom([]string{"tx", "tx", "txctx", "txctx", "exec", "query"}).Draw(rt, "kind")}
@@ -2183,7 +2610,7 @@ func VerifC11GenHist(rt *rapid.T) C11HistCase {
 //     the statement in it.
 func VerifC11InterpHist(t *testing.T, c C11HistCase, mk func(db *sql.DB) C11HistConn) (v kit.Verdict) {
 	defer VerifC11SetLog(c.Log)()
-	classes := map[string]bool{"log:" + map[string]string{"": "on", "off": "DisableLog", "stmtoff": "DisableStmtLog"}[c.Log]: true}
+	classes := map[string]bool{"log:" + c11LogNames[c.Log]: true}
 	fail := ""
 	shedCount, seenAfterShed := 0, 0
 	res := kit.Bubble(t, func() {
@@ -2193,6 +2620,53 @@ func VerifC11InterpHist(t *testing.T, c C11HistCase, mk func(db *sql.DB) C11Hist
 		db := sql.OpenDB(c11Connector{f})
 		defer db.Close()
 		conn := mk(db)
+
+		// a transaction of another user of the same *sql.DB, in flight across everything below
+		var pending *sql.Tx
+		if c.Pend {
+			classes["pending-foreign-tx"] = true
+			var e error
+			if pending, e = db.Begin(); e != nil {
+				fail = fmt.Sprintf("c11 harness: begin of the pending transaction: %v", e)
+				return
+			}
+			if _, e = NewSessionFromTx(pending).Exec("update p set a = 1"); e != nil {
+				fail = fmt.Sprintf("c11 harness: Exec in the pending transaction: %v", e)
+				return
+			}
+		}
+		if c.Churn > 0 {
+			classes[fmt.Sprintf("churn:%d", c.Churn)] = true
+			before := len(f.snapshot())
+			for k := 0; k < c.Churn; k++ {
+				if k%97 == 0 {
+					time.Sleep(time.Second) // spread the churn over the breaker's windows
+				}
+				if _, e := conn.Exec("update churn set n = n + 1 where id = ?", k); e != nil {
+					fail = fmt.Sprintf("churn: successful Exec number %d on the connection returned %v", k, e)
+					return
+				}
+			}
+			if got := len(f.snapshot()) - before; got != c.Churn {
+				fail = fmt.Sprintf("churn: %d Exec calls returned nil but the driver saw %d statements", c.Churn, got)
+				return
+			}
+		}
+		defer func() {
+			if pending == nil || fail != "" {
+				if pending != nil {
+					_ = pending.Rollback()
+				}
+				return
+			}
+			f.failCommit, f.failRollback = false, false
+			before := len(f.snapshot())
+			_, e1 := NewSessionFromTx(pending).Exec("update p set a = 2")
+			e2 := pending.Commit()
+			if got := f.snapshot()[before:]; e1 != nil || e2 != nil || !c11SameEvents(got, []string{"exec", "commit"}) {
+				fail = fmt.Sprintf("the transaction that was open across the history: Exec returned %v, Commit returned %v, the driver saw %v, want [exec commit]", e1, e2, got)
+			}
+		}()
 
 		for i, op := range c.Ops {
 			if op.Gap > 0 {
@@ -2269,6 +2743,9 @@ func VerifC11InterpHist(t *testing.T, c C11HistCase, mk func(db *sql.DB) C11Hist
 			}()
 			armedLeft := f.takeArmed()
 			evs := f.snapshot()[start:]
+			for k := range evs { // marks the fake driver puts on events while the pending transaction is open
+				evs[k] = strings.TrimPrefix(strings.TrimPrefix(evs[k], "o."), "n.")
+			}
 			commits, rollbacks := 0, 0
 			for _, e := range evs {
 				switch e {
